@@ -31,6 +31,8 @@ import os
 import re
 from typing import Dict, List, Optional, Set
 
+unparse = ast.unparse
+
 _KNOWN: Optional[Set[str]] = None
 
 
@@ -197,8 +199,18 @@ def _returns_in_tail(stmts) -> bool:
       elif any(isinstance(x, ast.Return) for b in (st.body, st.orelse)
                for s_ in b for x in ast.walk(s_)):
         return False
+    elif isinstance(st, ast.Try) and last and not any(
+        isinstance(x, ast.Return) for b_ in st.finalbody
+        for x in ast.walk(b_)):
+      # try: ... return a / except E: return b  as the last statement
+      if not (_returns_in_tail(st.body) and _returns_in_tail(st.orelse) and
+              all(_returns_in_tail(h_.body) for h_ in st.handlers)):
+        return False
+      if st.orelse and any(isinstance(x, ast.Return) for b_ in st.body
+                           for x in ast.walk(b_)):
+        return False
     elif any(isinstance(x, ast.Return) for x in ast.walk(st)):
-      return False  # a return inside a loop / try / with: not handled
+      return False  # a return inside a loop / with: not handled
   return True
 
 
@@ -248,6 +260,43 @@ def eligible(h, generator: bool = False, nested_ok: bool = False,
         isinstance(y, (ast.Lambda, ast.Call)) and y is not x and isinstance(
             y, ast.Lambda) for y in ast.walk(x)):
       return False  # a key / predicate lambda is fine, nested ones are not
+  return True
+
+
+def is_record_class(ci) -> bool:
+  """A NamedTuple or dataclass: its instances are the values they were made
+  from, under field names."""
+  n = ci.node
+  if any(unparse(b).split('.')[-1] == 'NamedTuple' for b in n.bases):
+    return True
+  return any(unparse(d.func if isinstance(d, ast.Call) else d).split('.')[-1]
+             == 'dataclass' for d in n.decorator_list)
+
+
+def eligible_method(h, generator: bool = False) -> bool:
+  """Like eligible(), for a method called on a record held in a local."""
+  n = h.node
+  if h.is_lambda or not isinstance(n, ast.FunctionDef) or h.cls is None:
+    return False
+  if not (n.args.args and n.args.args[0].arg == 'self'):
+    return False
+  if n.args.vararg or n.args.kwarg:
+    return False
+  for x in _own_nodes(n):
+    if isinstance(x, (ast.Await, ast.Global, ast.Nonlocal)):
+      return False
+    if isinstance(x, (ast.Yield, ast.YieldFrom)) and not generator:
+      return False
+    if isinstance(x, ast.Call) and isinstance(x.func, ast.Attribute) and (
+        x.func.attr == h.name):
+      return False
+    if isinstance(x, ast.Name) and x.id == 'self' and isinstance(
+        x.ctx, ast.Store):
+      return False
+  for x in ast.walk(n):
+    if x is not n and isinstance(x, (ast.FunctionDef, ast.AsyncFunctionDef,
+                                     ast.ClassDef, ast.Lambda)):
+      return False
   return True
 
 
@@ -430,6 +479,7 @@ class Inliner:
     self.callers = callers  # None: every function; else qualname prefixes
     self.count = 0
     self.sites: List[str] = []
+    self._recv: Dict[int, str] = {}
 
   def _callee(self, call, scope, generator: bool = False):
     h = self._callee0(call, scope, generator)
@@ -453,6 +503,21 @@ class Inliner:
       if h is None or h is scope or not eligible(h, generator):
         return None
       return h
+    if isinstance(fn, ast.Attribute) and isinstance(
+        fn.value, ast.Name) and fn.value.id != 'self':
+      # rec.method(...) on a local that holds a small record of the tree
+      # (NamedTuple / dataclass) built in this function
+      rc = self._record_class_of(fn.value.id, scope)
+      if rc is not None:
+        h = rc.methods.get(fn.attr)
+        if h is not None and h is not scope and not any(
+            unparse(d).split('.')[-1] in ('property', 'staticmethod',
+                                          'classmethod')
+            for d in h.node.decorator_list) and eligible_method(h, generator):
+          self._recv[id(call)] = fn.value.id
+          return h
+      return None if rc is not None else self._plain_callee(call, scope,
+                                                            generator)
     if isinstance(fn, ast.Name) and fn.id in getattr(scope, 'nested', {}):
       # a local function of the caller itself: its free variables are the
       # caller's own locals, so the body can stand where the call stood
@@ -466,6 +531,38 @@ class Inliner:
       if n_refs != n_calls:
         return None  # also used as a value (callback): keep it a function
       return h if eligible(h, generator, nested_ok=True) else None
+    return self._plain_callee(call, scope, generator)
+
+  def _bind2(self, h, call):
+    b = _bind(h, call)
+    recv = self._recv.get(id(call))
+    if b is not None and recv is not None:
+      b = dict(b)
+      b['self'] = ast.Name(id=recv, ctx=ast.Load())
+    return b
+
+  def _record_class_of(self, name, scope):
+    """The record class (NamedTuple / dataclass of the tree) whose instance
+    the local `name` of `scope` holds: `name = C(...)` is its only binding."""
+    if scope is None or getattr(scope, 'is_lambda', True):
+      return None
+    stores = [n for n in _own_nodes(scope.node) if isinstance(
+        n, ast.Name) and n.id == name and isinstance(n.ctx, ast.Store)]
+    if len(stores) != 1 or name in scope.params:
+      return None
+    for n in _own_nodes(scope.node):
+      if isinstance(n, ast.Assign) and len(n.targets) == 1 and (
+          n.targets[0] is stores[0]) and isinstance(n.value, ast.Call):
+        try:
+          q = self.p.resolve(n.value.func, scope)
+        except Exception:  # pylint: disable=broad-except
+          return None
+        ci = self.p.classes.get(q) if q else None
+        if ci is not None and is_record_class(ci):
+          return ci
+    return None
+
+  def _plain_callee(self, call, scope, generator):
     try:
       q = self.p.resolve(call.func, scope)
     except Exception:  # pylint: disable=broad-except
@@ -501,7 +598,7 @@ class Inliner:
         e = _expr_body(h)
         if e is None:
           return n
-        b = _bind(h, n)
+        b = inl._bind2(h, n)
         if b is None:
           return n
         body_ = [copy.deepcopy(e)]
@@ -529,7 +626,7 @@ class Inliner:
     if h is None or (_expr_body(h) is not None and
                      id(h.node) not in _COND_HELPERS):
       return None
-    b = _bind(h, call)
+    b = self._bind2(h, call)
     if b is None:
       return None
     body = copy.deepcopy(_strip_doc(h.node.body))
@@ -544,7 +641,8 @@ class Inliner:
       return None
     tag = '__' + h.name.strip('_')
     ren = {n: n + tag for n in _locals_of(h.node) | set(b)}
-    ren.pop('self', None)
+    if 'self' not in b:
+      ren.pop('self', None)
     holder = ast.Module(body=body, type_ignores=[])
     _Rename(ren).visit(holder)
     body = holder.body
@@ -567,6 +665,12 @@ class Inliner:
         elif isinstance(s_, ast.If):
           s_.body = conv(s_.body) or [ast.Pass()]
           s_.orelse = conv(s_.orelse)
+          out.append(s_)
+        elif isinstance(s_, ast.Try):
+          s_.body = conv(s_.body) or [ast.Pass()]
+          s_.orelse = conv(s_.orelse)
+          for h_ in s_.handlers:
+            h_.body = conv(h_.body) or [ast.Pass()]
           out.append(s_)
         else:
           out.append(s_)
@@ -651,14 +755,15 @@ class Inliner:
 
       if not yields_end_iterations(body, True, False):
         return None
-    b = _bind(h, st.iter)
+    b = self._bind2(h, st.iter)
     if b is None:
       return None
     if not self._requalify(body, h, f):
       return None
     tag = '__' + h.name.strip('_')
     ren = {n: n + tag for n in _locals_of(h.node) | set(b)}
-    ren.pop('self', None)
+    if 'self' not in b:
+      ren.pop('self', None)
     holder = ast.Module(body=body, type_ignores=[])
     _Rename(ren).visit(holder)
     ok = [True]
@@ -782,7 +887,7 @@ class Inliner:
       h = self._callee(c, f)
       if h is None or (_expr_body(h) is not None):
         continue
-      if _bind(h, c) is None:
+      if self._bind2(h, c) is None:
         continue
       body = _tailify(copy.deepcopy(_strip_doc(h.node.body)))
       if not _returns_in_tail(body):
@@ -906,12 +1011,139 @@ class Inliner:
         f.node.body = self._expand_stmts(f, f.node.body)
         for i, st in enumerate(f.node.body):
           f.node.body[i] = self._expand_exprs(f, st)
+        self._fold_records(f)
         ast.fix_missing_locations(f.node)
       if self.count == before:
         break
     return self
 
+  def _fold_records(self, f):
+    """`r = Rec(a=x, b=y)` held in a local: `r.a` reads as `x`, a property of
+    Rec as its expression; a record nothing refers to any more is dropped.
+    Only for records that are not modified (`r.a = ...`) and whose constructor
+    arguments are plain names / constants that are not rebound afterwards."""
+    fn = f.node
+    for _ in range(3):
+      stores: Dict[str, int] = {}
+      for n in _own_nodes(fn):
+        if isinstance(n, ast.Name) and isinstance(n.ctx, (ast.Store, ast.Del)):
+          stores[n.id] = stores.get(n.id, 0) + 1
+      recs = {}   # local -> (class, field -> expr, defining statement)
+      for n in sorted((x for x in _own_nodes(fn) if isinstance(x, ast.Assign)),
+                      key=lambda x: (getattr(x, 'lineno', 0),
+                                     getattr(x, 'col_offset', 0))):
+        if not (isinstance(n, ast.Assign) and len(n.targets) == 1 and
+                isinstance(n.targets[0], ast.Name)):
+          continue
+        v = n.targets[0].id
+        if stores.get(v) != 1 or v in f.params:
+          continue
+        if isinstance(n.value, ast.Name) and n.value.id in recs:
+          recs[v] = recs[n.value.id][:2] + (n,)   # an alias of a record
+          continue
+        ci = self._record_class_of(v, f)
+        if ci is None or any(m in ci.methods for m in (
+            '__init__', '__new__', '__post_init__', '__getattr__',
+            '__getattribute__')):
+          continue
+        fields = [k for k in ci.annotations]
+        call = n.value
+        if any(isinstance(a, ast.Starred) for a in call.args) or any(
+            k.arg is None for k in call.keywords) or len(call.args) > len(
+                fields):
+          continue
+        b = dict(zip(fields, call.args))
+        b.update({k.arg: k.value for k in call.keywords})
+        if not all(k in fields for k in b):
+          continue
+        recs[v] = (ci, b, n)
+      if not recs:
+        return
+      # records that are written to, or escape whole, keep their identity for
+      # the escaping use; field reads can still be folded
+      written = {n.value.id for n in _own_nodes(fn) if isinstance(
+          n, ast.Attribute) and isinstance(n.ctx, (ast.Store, ast.Del)) and
+                 isinstance(n.value, ast.Name)}
+      changed = [False]
+      inl = self
+
+      def simple(e):
+        return isinstance(e, ast.Constant) or (isinstance(
+            e, ast.Name) and stores.get(e.id, 0) <= 1)
+
+      class T(ast.NodeTransformer):
+
+        def visit_FunctionDef(self, n):
+          return n
+
+        visit_AsyncFunctionDef = visit_Lambda = visit_ClassDef = visit_FunctionDef
+
+        def visit_Attribute(self, n):
+          self.generic_visit(n)
+          if not (isinstance(n.ctx, ast.Load) and isinstance(
+              n.value, ast.Name) and n.value.id in recs) or (
+                  n.value.id in written):
+            return n
+          ci, b, _ = recs[n.value.id]
+          if n.attr in b and simple(b[n.attr]):
+            changed[0] = True
+            return ast.copy_location(copy.deepcopy(b[n.attr]), n)
+          m = ci.methods.get(n.attr)
+          if m is not None and any(unparse(d) == 'property'
+                                   for d in m.node.decorator_list):
+            e = _expr_body(m)
+            if e is not None and m.node.args.args:
+              changed[0] = True
+              inl.count += 1
+              inl.sites.append(f'{f.qualname} <- {m.qualname}')
+              return _fix(_Subst({m.node.args.args[0].arg: ast.Name(
+                  id=n.value.id, ctx=ast.Load())}).visit(copy.deepcopy(e)), n)
+          return n
+
+      fn.body = [T().visit(st) for st in fn.body]
+      # drop records (and aliases) that are no longer read
+      loads: Dict[str, int] = {}
+      for n in _own_nodes(fn):
+        if isinstance(n, ast.Name) and isinstance(n.ctx, ast.Load):
+          loads[n.id] = loads.get(n.id, 0) + 1
+      dead = [d for v, (_, b, d) in recs.items() if loads.get(v, 0) == 0 and (
+          isinstance(d.value, ast.Name) or all(
+              simple(x) for x in b.values()))]
+      if dead:
+        changed[0] = True
+
+        class D(ast.NodeTransformer):
+
+          def generic_visit(self, n):
+            for fld, old in ast.iter_fields(n):
+              if isinstance(old, list) and any(
+                  any(x is d for d in dead) for x in old):
+                new = [x for x in old if not any(x is d for d in dead)]
+                if not new and fld == 'body':
+                  new = [ast.copy_location(ast.Pass(), old[0])]
+                setattr(n, fld, new)
+            return super().generic_visit(n)
+
+        D().visit(fn)
+      if not changed[0]:
+        return
+
 
 def _terminates_or_assigns(body, st) -> bool:
-  return bool(body) and (_terminates(body) or isinstance(body[-1], ast.Assign)
-                         or (isinstance(body[-1], ast.If) and body[-1].orelse))
+  """Every way through `body` ends in a return / raise or in the assignment
+  that stands for the helper's return."""
+  if not body:
+    return False
+  last = body[-1]
+  if isinstance(last, (ast.Return, ast.Raise, ast.Assign)):
+    return True
+  if isinstance(last, ast.If):
+    return bool(last.orelse) and _terminates_or_assigns(
+        last.body, st) and _terminates_or_assigns(last.orelse, st)
+  if isinstance(last, ast.Try):
+    if _terminates(last.finalbody):
+      return True
+    main = last.orelse if last.orelse else last.body
+    return _terminates_or_assigns(main, st) and all(
+        _terminates_or_assigns(h_.body, st) for h_ in last.handlers)
+  return False
